@@ -54,7 +54,7 @@ fn sync_body(fast_start: bool, exclude_known: bool) {
     core::mem::forget((w, r));
 }
 
-//@ prop=C09 tier=quick cost=300 fns="Mp4Writer::finalize,finalize_standard,SampleTables::from_samples" bound="standard layout, 1 video + 2 audio samples; any first video pts/dts and audio pts < 2^31 with dts <= pts <= first audio pts; audio starting at the first video decode time (other starts: KF-C09)" unwind=6 stubs="build_moov_box(recording stand-in)" timeout=1400 mem=20
+//@ prop=C09 tier=quick cost=300 fns="Mp4Writer::finalize,finalize_standard,SampleTables::from_samples" bound="standard layout, 1 video + 2 audio samples; any first video pts/dts and audio pts < 2^31 with dts <= pts <= first audio pts; audio starting at the first video decode time (other starts: KF-C09)" unwind=6 stubs="build_moov_box(recording stand-in)" timeout=1400 mem=10
 #[kani::proof]
 #[kani::unwind(6)]
 #[kani::stub(muxide::invariant_ppt::__assert_invariant_impl, crate::stubs::assert_invariant_stub)]
@@ -62,7 +62,7 @@ fn sync_body(fast_start: bool, exclude_known: bool) {
 pub fn c09_sync_std_v1a2() {
     sync_body(false, crate::known::KF_C09_NO_TRACK_START_OFFSET);
 }
-//@ prop=C09 tier=quick cost=400 fns="Mp4Writer::finalize,finalize_fast_start,SampleTables::from_samples" bound="fast start, 1 video + 2 audio samples; same input space" unwind=6 stubs="build_moov_box(recording stand-in)" timeout=1400 mem=20
+//@ prop=C09 tier=quick cost=400 fns="Mp4Writer::finalize,finalize_fast_start,SampleTables::from_samples" bound="fast start, 1 video + 2 audio samples; same input space" unwind=6 stubs="build_moov_box(recording stand-in)" timeout=1400 mem=10
 #[kani::proof]
 #[kani::unwind(6)]
 #[kani::stub(muxide::invariant_ppt::__assert_invariant_impl, crate::stubs::assert_invariant_stub)]
@@ -70,7 +70,7 @@ pub fn c09_sync_std_v1a2() {
 pub fn c09_sync_fast_v1a2() {
     sync_body(true, crate::known::KF_C09_NO_TRACK_START_OFFSET);
 }
-//@ prop=C09 tier=quick cost=300 fns="Mp4Writer::finalize,finalize_standard,SampleTables::from_samples" bound="standard layout, 1 video + 2 audio samples, audio start unconstrained" unwind=6 stubs="build_moov_box(recording stand-in)" timeout=1400 mem=20 expect=fail kf=KF-C09-no-track-start-offset
+//@ prop=C09 tier=quick cost=300 fns="Mp4Writer::finalize,finalize_standard,SampleTables::from_samples" bound="standard layout, 1 video + 2 audio samples, audio start unconstrained" unwind=6 stubs="build_moov_box(recording stand-in)" timeout=1400 mem=10 expect=fail kf=KF-C09-no-track-start-offset
 #[kani::proof]
 #[kani::unwind(6)]
 #[kani::stub(muxide::invariant_ppt::__assert_invariant_impl, crate::stubs::assert_invariant_stub)]
